@@ -103,6 +103,13 @@ def run_case(case):
     vmax = max(np.abs(v).max(), 1e-30)
     lo = max(-8.0, np.log10(vmax) - (300 if x64 else 30))
     scale = float(10 ** rng.uniform(lo, 8))
+    int_vals = case["index"] % 5 == 4
+    if int_vals:
+        # integer-TYPED continuation values (integer pay-offs) with a non-integer scale
+        v = rng.integers(-20, 21, shape)
+        scale = float(np.round(rng.uniform(0.2, 5.0), 3))
+        pattern = "integer_typed"
+        add("integer_typed_value_cases")
     jv = jnp.asarray(v)
     v_used = np.asarray(jv, dtype=float)
     s_used = float(np.asarray(jnp.asarray(scale))) if not x64 else scale
@@ -110,7 +117,11 @@ def run_case(case):
     params = {"additive_utility_shock": {"scale": scale}}
     use_jit = bool(rng.random() < 0.5)
 
+    # the scale in the representations a params leaf can have
+    rep = [float, np.float64, (lambda z: jnp.asarray(z)), (lambda z: np.asarray(z))][case["index"] % 4]
+
     def call(vals, sc):
+        sc = rep(sc)
         f = lambda x, s: dp._calculate_emax_extreme_value_shocks(x, axes, segs, {"additive_utility_shock": {"scale": s}})  # noqa: E731
         if use_jit:
             f = jax.jit(f)
